@@ -1039,6 +1039,8 @@ def run(ctx):
     ]
     variants = _clients.variants()
     run.extra["clients"] = [v.name for v in variants]
+    from . import src_consts
+    src_consts.check_c11(run, model.call("C11", [Sym("constants")]))
     calls = gen_calls(ctx)
     # concurrent batches: copies of main-stream calls with unique operation names; each copy is also run solo
     rng = ctx.rng
